@@ -15,7 +15,7 @@ tvars == <<l, first, bad>>
 
 \* rewrites under which the 32-bit hash() is promised to be stable (C13)
 Base(rn) == rn   \* rule names carry suffixes @member / @decl
-H32StableBase == {"PermuteProps", "PermuteUnion", "PermuteInter", "IntroduceAlias", "InlineAlias", "ExtractVariantAlias",
+H32StableBase == {"PermuteProps", "PermuteUnion", "PermuteInter", "IntroduceAlias", "InlineAlias", "InlineAlias@recursive", "ExtractVariantAlias",
                   "AddComment", "AddJSDoc", "PermuteDecls", "NestUnion", "FlattenUnion", "AddParens"}
 Suffixes == {"", "@decl", "@member", "@member@decl"}
 H32Stable == {b \o x : b \in H32StableBase, x \in Suffixes}
@@ -23,9 +23,12 @@ H32Stable == {b \o x : b \in H32StableBase, x \in Suffixes}
 \* Known deviation "aliasAtMemberChangesDigest": introducing an alias / generic / interface boundary inside a member
 \* of a union or intersection changes the IR order (and compile-time merging) of the members, and hash256 / hash
 \* write members in that order.
-AliasBoundaryAtMember == {b \o x : b \in {"IntroduceAlias", "ExtractVariantAlias", "WrapGenericIdentity", "ObjectToInterface", "InlineAlias"},
+AliasBoundaryAtMember == {b \o x : b \in {"IntroduceAlias", "ExtractVariantAlias", "WrapGenericIdentity", "ObjectToInterface", "InlineAlias", "InlineAlias@recursive"},
                                    x \in {"@member", "@member@decl"}}
                          \cup {"RenameAlias@member"}    \* reference members are ordered by their names
+\* Known deviation "unrolledRecursionDigest": inlining a reference to a recursive named type is one unrolling of the
+\* recursion; the digest of an unrolling differs from the digest of the named type (the accepted values do not).
+UnrollsRecursion == {"InlineAlias@recursive" \o x : x \in Suffixes}
 RuleSet(r) == {r.rules[i] : i \in DOMAIN r.rules}
 \* the part of the vector before "|" is default mode, after it strict mode
 Half(v, which) == LET n == (Len(v) - 1) \div 2 IN IF which = 1 THEN SubSeq(v, 1, n) ELSE SubSeq(v, n + 2, Len(v))
@@ -33,6 +36,9 @@ Half(v, which) == LET n == (Len(v) - 1) \div 2 IN IF which = 1 THEN SubSeq(v, 1,
 Classify(kind, r, f) ==
   IF kind \in {"hash256-differs", "hash-differs"} /\ RuleSet(r) \cap AliasBoundaryAtMember # {} /\ "aliasAtMemberChangesDigest" \in Open
   THEN "aliasAtMemberChangesDigest"
+  ELSE IF kind \in {"hash256-differs", "hash-differs"} /\ RuleSet(r) \cap UnrollsRecursion # {} /\ r.vec = f.vec
+          /\ "unrolledRecursionDigest" \in Open
+  THEN "unrolledRecursionDigest"
   ELSE IF kind = "validate-vector-differs" /\ Half(r.vec, 1) = Half(f.vec, 1) /\ RuleSet(r) \cap AliasBoundaryAtMember # {}
           /\ "strictPerInterMember" \in Open
   THEN "strictPerInterMember"
